@@ -83,6 +83,13 @@ Theorem C08_no_wrap_full : forall (c : cfg) (hist : list item), 1 <= c_init c ->
 Proof. exact c08_no_wrap. Qed.
 Print Assumptions C08_no_wrap_full.
 
+(* The run-length item of the case files (an idle stretch of n attempts without transactions) is nothing but
+   n single attempts: the theorems above, which quantify over all histories, cover it. *)
+Theorem C08_run_length_full : forall (c : cfg) (hist : list item) (n : N),
+  final c (hist ++ [IProduceEmptyN n]) = final c (hist ++ repeat (IProduce false) (N.to_nat n)).
+Proof. exact c08_run_length. Qed.
+Print Assumptions C08_run_length_full.
+
 (* ---- non-vacuity ------------------------------------------------------------------------------------------- *)
 Definition acc1 : list outcome := [OAcceptAll].
 Definition out3 : list outcome := [OFail; OFail; OFail; OAcceptAll].
@@ -119,6 +126,15 @@ Example empty_blocks_do_not_count :
   let s := final c [IProduce false; IProduce true; IProduce false; IHeaders acc1] in
   sub64 (t_height s) (t_wd s) = 3 /\ num_waiting_blocks c s = 1 /\ refused c s = false /\
   t_wd (produce c s false) = 1 /\ t_height (produce c s false) = 4.
+Proof. vm_compute. repeat split. Qed.
+
+(* a long idle stretch with a limit above it: 300 empty blocks at once (limit 1000), three blocks with
+   transactions, one round: everything is on the DA layer (600 + 3 heights would be a size boundary for any
+   per-round cap on the pending range; the code has none) *)
+Example long_idle_stretch :
+  let c := mk_cfg 1 1000 in
+  let s := final c [IProduceEmptyN 300; IProduce true; IProduce true; IProduce true; IHeaders acc1; IData acc1] in
+  t_height s = 303 /\ t_wh s = 303 /\ t_wd s = 303 /\ t_dad s = [301; 302; 303] /\ num_waiting_blocks c s = 0.
 Proof. vm_compute. repeat split. Qed.
 
 (* what the uint64 arithmetic would do if a watermark ever exceeded the height (excluded by C08_no_wrap_full) *)
